@@ -190,18 +190,21 @@ def _gen_dtlsrec():
          r"self\.handle_decrypted_record\( record\.content_type, payload, ctx, incoming_data_tx, certificate, is_client, \) \.await\?; \} "
          r"Err\(e\) => \{ warn!\(\"Failed to decode DTLS record: \{\}\", e\); data = Bytes::new\(\); \} \} \} Ok\(\(\)\) \}$",
          hp, "handle_incoming_packet decrypt / dispatch / error arms")
-    drop = re.search(r"Ok\(Some\(record\)\) => \{ if record\.epoch == (\d+) && ctx\.session_keys\.is_some\(\) \{ "
+    drop = re.search(r"Ok\(Some\(record\)\) => \{ if record\.epoch == (\d+) && "
+                     r"(ctx\.session_keys\.is_some\(\)|\(record\.content_type == ContentType::ApplicationData \|\| ctx\.session_keys\.is_some\(\)\)) \{ "
                      r"let handshaking = matches!\(\*self\.state\.lock\(\), DtlsState::Handshaking\); "
                      r"if !handshaking \|\| matches!\( record\.content_type, ((?:ContentType::\w+(?: \| )?)+) \) \{ continue; \} \} "
                      r"let payload = match self\.try_decrypt_record", hp)
     if drop:
-        tys = re.findall(r"ContentType::(\w+)", drop.group(2))
+        tys = re.findall(r"ContentType::(\w+)", drop.group(3))
         m.raw("Definition rx_drop_epoch0 : bool := true.\nDefinition RX_DROP_EPOCH : Z := %s.\n"
+              "Definition rx_drop_plain_app_without_keys : bool := %s.\n"
               "Definition rx_drop_types_handshaking : list ContentType := [%s]." % (
-                  drop.group(1), "; ".join("ContentType_" + t for t in tys)),
+                  drop.group(1), "true" if drop.group(2).startswith("(") else "false", "; ".join("ContentType_" + t for t in tys)),
               "fn handle_incoming_packet (epoch-0 discard rule, placed before try_decrypt_record)", MOD)
     elif re.search(r"Ok\(Some\(record\)\) => \{ let payload = match self\.try_decrypt_record", hp):
         m.raw("Definition rx_drop_epoch0 : bool := false.\nDefinition RX_DROP_EPOCH : Z := 0.\n"
+              "Definition rx_drop_plain_app_without_keys : bool := false.\n"
               "Definition rx_drop_types_handshaking : list ContentType := [].",
               "fn handle_incoming_packet (NO epoch-0 discard rule)", MOD)
     else:
